@@ -260,6 +260,8 @@ pub fn in_table(a: u64, s: u64) -> bool {
 static DROPS: AtomicUsize = AtomicUsize::new(0);
 /// address alignment the current case's arena guarantees (set by `open_case`)
 static GUARANTEED_ALIGN: std::sync::atomic::AtomicU64 = std::sync::atomic::AtomicU64::new(8);
+/// the running case was generated for the sync flavour and is replayed on the unsync one (`--flavour unsync`)
+static NO_TRUNCATE: AtomicBool = AtomicBool::new(false);
 
 /// A `needs_drop` type (size 8, align 8); dropping it increments a global counter that the
 /// harness resets at the start of every case.
@@ -1244,6 +1246,11 @@ impl<A: Flavour> Case<A> {
         // `truncate` needs `&mut`; borrowed handles keep shared references to the same value
         // (they re-read `ptr`/`cap` through it on every access)
         let p = *self.arenas.values().next().unwrap();
+        // a history generated for the sync flavour (where `truncate` does not exist: `r=na`) keeps its handles alive
+        // across the line; replayed on the unsync flavour the line must stay a no-op, or those handles dangle
+        if NO_TRUNCATE.load(Ordering::Relaxed) {
+          return Some("r=na".to_string());
+        }
         match unsafe { (*p).trunc(n) } {
           None => "r=na".to_string(),
           Some(Ok(())) => "r=ok".to_string(),
@@ -1735,6 +1742,7 @@ pub fn open_case(
   let Some(mut cfg) = Cfg::parse(cfg_line) else {
     return (None, "bad-op".to_string());
   };
+  NO_TRUNCATE.store(force_sync == Some(false) && cfg.sync, Ordering::Relaxed);
   if let Some(s) = force_sync {
     cfg.sync = s;
   }
@@ -2291,6 +2299,7 @@ pub fn open_session(
   let Some(mut cfg) = Cfg::parse(cfg_line) else {
     return (None, "bad-op".to_string());
   };
+  NO_TRUNCATE.store(ov.sync == Some(false) && cfg.sync, Ordering::Relaxed);
   if let Some(s) = ov.sync {
     cfg.sync = s;
   }
